@@ -555,4 +555,57 @@ theorem lamport_parents (g : List Nat) (es : List Ev) (hnd : (es.map (·.id)).No
     exact ⟨q, tp, hq, htp, hlt' tp (by rw [hlq]; exact htp)⟩
   exact ⟨t, ht, fun h => aux e.sp (hin.1 h) (hlt.1 h), fun h => aux e.op (hin.2 h) (hlt.2 h)⟩
 
+/-! ## ancestry and the committed order of a frame -/
+
+/-- `a` is a proper ancestor of `b` in the stored history: a non-empty path of parent references -/
+inductive ProperAncestor (s : St) : String → String → Prop
+  | parent {a b : String} {eb : Ev} : s.get b = some eb → a ≠ "" → (eb.sp = a ∨ eb.op = a) → ProperAncestor s a b
+  | trans {a b c : String} : ProperAncestor s a b → ProperAncestor s b c → ProperAncestor s a c
+
+/-- in any state satisfying the invariant, a proper ancestor has a strictly smaller timestamp -/
+theorem LInv.anc_lt {s : St} (hI : LInv s) {a b : String} (h : ProperAncestor s a b) :
+    ∃ ta tb, s.lamportOf a = some ta ∧ s.lamportOf b = some tb ∧ ta < tb := by
+  induction h with
+  | @parent a b eb hb hne hpar =>
+    have hpb : s.parOf b = some (eb.sp, eb.op) := by unfold St.parOf; rw [hb]; rfl
+    have hsb := hI.all b (by rw [hpb]; rfl)
+    obtain ⟨tb, htb⟩ := Option.isSome_iff_exists.mp hsb
+    have hin := hI.par b eb.sp eb.op hpb
+    have hlt := hI.lt b eb.sp eb.op tb hpb htb
+    rcases hpar with hp | hp
+    · subst hp
+      have hsa := hI.all eb.sp (hin.1 hne)
+      obtain ⟨ta, hta⟩ := Option.isSome_iff_exists.mp hsa
+      exact ⟨ta, tb, hta, htb, hlt.1 hne ta hta⟩
+    · subst hp
+      have hsa := hI.all eb.op (hin.2 hne)
+      obtain ⟨ta, hta⟩ := Option.isSome_iff_exists.mp hsa
+      exact ⟨ta, tb, hta, htb, hlt.2 hne ta hta⟩
+  | trans _ _ ih1 ih2 =>
+    obtain ⟨ta, tb, hta, htb, h1⟩ := ih1
+    obtain ⟨tb', tc, htb', htc, h2⟩ := ih2
+    rw [htb] at htb'; injection htb' with htb'; subst htb'
+    exact ⟨ta, tc, hta, htc, by omega⟩
+
+/-- **the committed order of a frame extends ancestry**: in any state satisfying the invariant, if
+    one event of the sorted frame is a proper ancestor of another, it comes first -/
+theorem frame_order_extends_ancestry (s : St) (hI : LInv s) (r : Int) (ri : RoundInfo) (i j : Nat)
+    (hi : i < (s.getFrame r ri).2.length) (hj : j < (s.getFrame r ri).2.length)
+    (h : ProperAncestor s ((s.getFrame r ri).2[i]).id ((s.getFrame r ri).2[j]).id) : i < j := by
+  obtain ⟨hsort, hperm⟩ := getFrame_sorted s r ri
+  have hget : ∀ e ∈ (s.getFrame r ri).2, s.get e.id = some e := by
+    intro e he
+    have := hperm.subset he
+    simp only [List.mem_filterMap] at this
+    obtain ⟨id, _, hid⟩ := this
+    rw [get_id hid]; exact hid
+  obtain ⟨ta, tb, hta, htb, hlt⟩ := hI.anc_lt h
+  have hla : ((s.getFrame r ri).2[i]).lamport = some ta := by
+    have := hget _ (List.getElem_mem hi)
+    unfold St.lamportOf at hta; rw [this] at hta; simpa using hta
+  have hlb : ((s.getFrame r ri).2[j]).lamport = some tb := by
+    have := hget _ (List.getElem_mem hj)
+    unfold St.lamportOf at htb; rw [this] at htb; simpa using htb
+  exact sorted_lamport_order _ hsort i j hi hj (by rw [hla, hlb]; simpa using hlt)
+
 end Babble.HG
